@@ -42,8 +42,6 @@ type vLive struct {
 func vStartLive(tag string, K int) *vLive {
 	l := &vLive{}
 	l.s, l.m, l.cs, _ = vNewUpstreamServer()
-	l.s.config = config.UpstreamConfig{}
-	l.s.httpServer = &http.Server{}
 	VerifUpgradeOK = true
 	pikowebsocket.VerifResetCloses()
 	vClosed, VerifSessions, VerifAcceptCtx, VerifAcceptCalls = nil, nil, nil, 0
